@@ -213,6 +213,11 @@ class EvalBinOp(Harness):
                     if self.exps is not None and Fraction(r).denominator == 1:
                         want = n_mul(eL, int(r))
                     else:
+                        # any accepted power: every exponent is multiplied by r exactly (roots and rational powers are
+                        # refused unless exact)
+                        got_p, got_e = d.get(k, (False, 0))
+                        obs.append(('unit[%s]: exponent * r is exact' % k, z3.ToReal(zint(eff_exp(d, k))) == z3.ToReal(zint(eL)) * rz))
+                        obs.append(('unit[%s]: no zero exponent carried' % k, b_or(b_not(got_p), b_not(n_eq(got_e, 0)))))
                         continue
                 got_p, got_e = d.get(k, (False, 0))
                 obs.append(('unit[%s]: present iff exponent != 0' % k, n_eq(got_p, b_not(n_eq(want, 0)))))
@@ -283,13 +288,30 @@ class EvalBinOp(Harness):
         return reqs
 
     def _cheap(self, l, r):
-        if self.op in ('ShiftL', 'ShiftR', 'Pow'):
+        if self.op in ('ShiftL', 'ShiftR'):
             return r.denominator == 1 and abs(r) <= 4096
+        if self.op == 'Pow':
+            return abs(r) <= 4096
         return True
 
     def judge(self, inputs, label, obs):
         l, r, dl, dr = self._conc(inputs)
         exp = oracle(self.op, l, r, dl, dr)
+        if exp[0] == 'float-or-root' and dl:
+            # a non-integer power of a dimensioned value: refused, or every exponent times r is an integer
+            for lvl, o in (('kernel', obs[0]), ('query', obs[1] if len(obs) > 1 else None)):
+                if o is None:
+                    continue
+                if o.get('outcome') == 'panic':
+                    return True, '%s: panic %s' % (lvl, o.get('panic'))
+                got = kernel_number(o) if lvl == 'kernel' else obs_number_json(o)
+                if got is not None:
+                    want = {k_: e * r for k_, e in dl.items() if e != 0}
+                    okd = all(v_.denominator == 1 for v_ in want.values()) and got[1] == {k_: int(v_) for k_, v_ in want.items() if v_ != 0}
+                    if not okd:
+                        return (True if lvl == 'query' or len(obs) == 1 else 'kernel-only'), '%s: (%s %s)^(%s) accepted with unit %s; exact exponents would be %s' % (
+                            lvl, l, dl, r, got[1], {k_: str(v_) for k_, v_ in want.items()})
+            return False, 'refused or exact'
         k = obs[0]
         q = obs[1] if len(obs) > 1 else None
         verdicts = []
